@@ -616,3 +616,36 @@ Example fork_cases :
   history_f Guarded true fresh [(Some (CExit 0), OOk, Some (SKill, 8, CTry)); (Some CRaise, ORaise, None); (None, OOk, None)]
     = {| d_done := true; d_failed := None; d_pid := false; d_lock := false; d_runs := 3; d_completed := 1 |}.
 Proof. vm_compute. repeat split; reflexivity. Qed.
+
+(* ================================================================== round 5: the end-of-job notification *)
+(* notification last (the code): whether it raises or not, the run is the run of the model used everywhere else *)
+Lemma notify_last_is_runner : forall nf v o d,
+  map snd (runner_n NotifyLast nf v o (boot d)) = trace v o d.
+Proof.
+  intros nf v o d. split_dir d. destruct dn, fl, v; split_outcome o; reflexivity.
+Qed.
+
+Lemma notify_last_own_exit : forall nf v d o, v <> Prefix ->
+  pid (end_n NotifyLast nf v d o) = false /\ lock (end_n NotifyLast nf v d o) = false.
+Proof.
+  intros nf v d o Hv. unfold end_n. rewrite notify_last_is_runner.
+  split.
+  - apply (own_exit_no_pid_v v d o Hv).
+  - apply (own_exit_lock_released v d o Hv).
+Qed.
+
+(* notification before the removal of the pid file, and it raises: a job that ended by itself - successfully
+   or not - keeps its pid file, and its lock until the process is gone *)
+Lemma notify_first_refuted :
+  exists d, Inv d /\
+    pid (end_n NotifyFirst true Guarded d OOk) = true /\ done (end_n NotifyFirst true Guarded d OOk) = true /\
+    lock (end_n NotifyFirst true Guarded d OOk) = true /\
+    pid (end_n NotifyFirst true Guarded d ORaise) = true /\ failed (end_n NotifyFirst true Guarded d ORaise) = Some 1%Z.
+Proof. exists fresh. split; [apply Inv_fresh|]. vm_compute. repeat split; reflexivity. Qed.
+
+(* ... while the same order is harmless as long as the notification does not raise, and on a directory whose
+   success marker makes the launch skip the body (no notification at all) *)
+Lemma notify_first_quiet : forall v o d, map snd (runner_n NotifyFirst false v o (boot d)) = trace v o d.
+Proof.
+  intros v o d. split_dir d. destruct dn, fl, v; split_outcome o; reflexivity.
+Qed.
